@@ -75,14 +75,14 @@ Definition field_type (sch : aschema) (t f : string) : option string :=
 Definition mixin_dir := (string * string)%type.     (* @mixin(from: , import: ) *)
 Inductive sel :=
 | SField (alias : option string) (name : string) (mixins : list mixin_dir) (sub : list sel)
-| SSpread (frag : string)
-| SInline (tcond : string) (sub : list sel).
+| SSpread (frag : string) (cond : bool)                 (* cond: carries @skip / @include *)
+| SInline (tcond : string) (cond : bool) (sub : list sel).
 Record fragdef := { fr_name : string; fr_on : string; fr_mixins : list mixin_dir; fr_sel : list sel }.
 Record opdef := { o_name : string; o_root : string; o_mixins : list mixin_dir; o_sel : list sel }.
 
 Definition find_frag (n : string) (frags : list fragdef) : option fragdef :=
   find (fun f => String.eqb (fr_name f) n) frags.
-Definition is_inline (s : sel) : bool := match s with SInline _ _ => true | _ => false end.
+Definition is_inline (s : sel) : bool := match s with SInline _ _ _ => true | _ => false end.
 
 (* _unpack_fragment(fragment_def, root_type_def) *)
 Definition unpack_fragment (sch : aschema) (fd : fragdef) (root : option string) : bool :=
@@ -100,9 +100,14 @@ Definition inline_root (sch : aschema) (tc root : string) : option string :=
   end.
 
 (* _resolve_selection_set: (fields, fragments used as bases, unpacked fragments so far).
+   under = the `conditions` argument of /repo e47d9e8 is non-empty: the selection set lies inside an inline
+   fragment or fragment spread carrying @skip/@include.  A spread under a condition (its own directive or an
+   enclosing container's) is NEVER used as a base class - it is unpacked (or dropped).  The decision is the
+   same expression as in Model/Results.v resolve_step; this copy also returns the unpacked names, which the
+   package-level exclusion rule needs and Results.v does not track.
    fuel bounds list position + nesting + fragment chains; None = out of fuel / unknown fragment *)
-Fixpoint resolve (fuel : nat) (sch : aschema) (frags : list fragdef) (ss : list sel) (root : string)
-                 (unp : list string) : option (list sel * list string * list string) :=
+Fixpoint resolve (fuel : nat) (sch : aschema) (frags : list fragdef) (under : bool) (ss : list sel)
+                 (root : string) (unp : list string) : option (list sel * list string * list string) :=
   match fuel with
   | 0 => None
   | S f =>
@@ -112,26 +117,26 @@ Fixpoint resolve (fuel : nat) (sch : aschema) (frags : list fragdef) (ss : list 
           let r1 :=
             match s with
             | SField _ _ _ _ => Some ([s], [], unp)
-            | SSpread fn =>
+            | SSpread fn c =>
                 match find_frag fn frags with
                 | None => None
                 | Some fd =>
-                    if negb (unpack_fragment sch fd (Some root)) then Some ([], [fn], unp)
+                    if negb (under || c) && negb (unpack_fragment sch fd (Some root)) then Some ([], [fn], unp)
                     else if String.eqb (fr_on fd) root
                             || (is_abstract sch (fr_on fd) && is_sub_type sch (fr_on fd) root)
-                    then resolve f sch frags (fr_sel fd) root (unp ++ [fn])
+                    then resolve f sch frags (under || c) (fr_sel fd) root (unp ++ [fn])
                     else Some ([], [], unp)
                 end
-            | SInline tc sub =>
+            | SInline tc c sub =>
                 match inline_root sch tc root with
-                | Some rt => resolve f sch frags sub rt unp
+                | Some rt => resolve f sch frags (under || c) sub rt unp
                 | None => Some ([], [], unp)
                 end
             end in
           match r1 with
           | None => None
           | Some (f1, m1, u1) =>
-              match resolve f sch frags rest root u1 with
+              match resolve f sch frags under rest root u1 with
               | None => None
               | Some (f2, m2, u2) => Some (f1 ++ f2, m1 ++ m2, u2)
               end
@@ -149,8 +154,8 @@ Fixpoint inline_conds (fuel : nat) (frags : list fragdef) (ss : list sel) : opti
       | [] => Some []
       | s :: rest =>
           let r1 := match s with
-                    | SInline tc _ => Some [tc]
-                    | SSpread fn => match find_frag fn frags with
+                    | SInline tc _ _ => Some [tc]
+                    | SSpread fn _ => match find_frag fn frags with
                                     | Some fd => inline_conds f frags (fr_sel fd)
                                     | None => None end
                     | SField _ _ _ _ => Some []
@@ -165,7 +170,7 @@ Fixpoint inline_conds (fuel : nat) (frags : list fragdef) (ss : list sel) : opti
 (* result_fields.get_fragments_on_subtype (top level spreads only) *)
 Definition frags_on_subtype (sch : aschema) (frags : list fragdef) (ss : list sel) (T : string) : list string :=
   flat_map (fun s => match s with
-                     | SSpread fn => match find_frag fn frags with
+                     | SSpread fn _ => match find_frag fn frags with
                                      | Some fd => if is_sub_type sch T (fr_on fd) then [fr_on fd] else []
                                      | None => [] end
                      | _ => [] end) ss.
@@ -191,7 +196,7 @@ Definition related (fuel : nat) (sch : aschema) (frags : list fragdef) (cn T : s
 
 Record cls := { c_name : string; c_type : string; c_bases : list string;
                 c_frags : list string;      (* fragments the resolver returned as bases of this class *)
-                c_direct : list string;     (* fragments spread directly in its selection set *)
+                c_direct : list string;     (* fragments spread directly and unconditionally in its selection set *)
                 c_bfrags : list string }.   (* those of c_frags actually listed as bases *)
 
 Record st := { st_public : list string; st_mix : list string; st_unp : list string;
@@ -223,8 +228,9 @@ Definition reduced (g : graph) (mix : list string) : list string :=
 Definition class_bases (g : graph) (mix : list string) (extra : list string) : list string :=
   ((match mix with [] => [base_model] | _ => map pascal_s (sort_uniq (reduced g mix)) end) ++ extra)%list.
 
+(* fragments spread directly and UNCONDITIONALLY in a selection set *)
 Definition direct_spreads (ss : list sel) : list string :=
-  flat_map (fun s => match s with SSpread fn => [fn] | _ => [] end) ss.
+  flat_map (fun s => match s with SSpread fn false => [fn] | _ => [] end) ss.
 
 (* _parse_type_definition: class skeletons in generation order *)
 Fixpoint ptd (fuel : nat) (sch : aschema) (frags : list fragdef) (g : graph) (snake : bool)
@@ -234,7 +240,7 @@ Fixpoint ptd (fuel : nat) (sch : aschema) (frags : list fragdef) (g : graph) (sn
   | S f =>
       if mem cn (st_public s) then Some ([], s)
       else
-        match resolve f sch frags ss tn (st_unp s) with
+        match resolve f sch frags false ss tn (st_unp s) with
         | None => None
         | Some (fields, mix, unp') =>
             let s1 := {| st_public := (st_public s ++ [cn])%list; st_mix := (st_mix s ++ mix)%list;
@@ -394,7 +400,7 @@ Fixpoint all_some {X} (l : list (option X)) : option (list X) :=
 
 (* the base graph of the document: what _get_fragment_bases recomputes on demand *)
 Definition top_graph (fuel : nat) (sch : aschema) (frags : list fragdef) : option graph :=
-  all_some (map (fun fd => match resolve fuel sch frags (fr_sel fd) (fr_on fd) [] with
+  all_some (map (fun fd => match resolve fuel sch frags false (fr_sel fd) (fr_on fd) [] with
                            | Some (_, mix, _) => Some (fr_name fd, mix)
                            | None => None end) frags).
 
@@ -460,7 +466,7 @@ Local Open Scope string_scope.
 Definition dPair (e : sexp) : option (string * string) :=
   match e with L [A a; A b] => Some (a, b) | _ => None end.
 
-(* selections:  (f alias|none name ((from import)...) (sub...)) | (s name) | (i tcond (sub...)) *)
+(* selections:  (f alias|none name ((from import)...) (sub...)) | (s name cond) | (i tcond cond (sub...)) *)
 Fixpoint dSel (e : sexp) : option sel :=
   let dsub := (fix go (l : list sexp) : option (list sel) :=
                  match l with
@@ -472,8 +478,8 @@ Fixpoint dSel (e : sexp) : option sel :=
       match dOpt dStr al, dList dPair mx, dsub sub with
       | Some a, Some m, Some s => Some (SField a nm m s)
       | _, _, _ => None end
-  | L [A "s"; A fn] => Some (SSpread fn)
-  | L [A "i"; A tc; L sub] => match dsub sub with Some s => Some (SInline tc s) | None => None end
+  | L [A "s"; A fn; c] => match dB c with Some b => Some (SSpread fn b) | None => None end
+  | L [A "i"; A tc; c; L sub] => match dB c, dsub sub with Some b, Some s => Some (SInline tc b s) | _, _ => None end
   | _ => None
   end.
 
